@@ -317,7 +317,7 @@ func LeafValues(t *schema.Type, depth int) []*Value {
 		return mk(0, 0x8000000000000000, math.Float64bits(1.5), math.Float64bits(-3.25e100), 0x7ff0000000000000, 0xfff0000000000000, f64NaNq, f64NaNp, 1, 0x7fefffffffffffff)
 	case "string":
 		out := []*Value{}
-		for _, s := range []string{"", "a", "hello world", "h\x00l", "héllo ☃", "\xff\xfe\x80bad", strings.Repeat("0123456789", 30)} {
+		for _, s := range []string{"", "a", "hello world", "h\x00l", "héllo ☃", "\xff\xfe\x80bad", strings.Repeat("0123456789", 30), "\xe9", "\x80", "\x00", "\xc3"} {
 			out = append(out, &Value{T: t, Str: s})
 		}
 		return out
